@@ -98,6 +98,8 @@ func runHistory(sp spec, tmp string) (res *result, err error) {
 		h.directedShadowJoiner()
 	case "d-below-old-thr":
 		h.directedBelowOldThreshold()
+	case "d-joiner-key-swap":
+		h.directedJoinerKeySwap()
 	case "gen":
 		for k := 0; k < 2+h.rng.Intn(2) && !h.cut; k++ {
 			h.attempt()
@@ -258,6 +260,52 @@ func (h *hist) directedShadowJoiner() {
 		h.packet(1, h.forged(1, "execute", leader, leader), "execute by the leader (own key)", "leader")
 	} else {
 		h.packet(1, h.forged(1, "abort", leader, leader), "abort by the leader (own key)", "leader")
+	}
+}
+
+// swapKey returns the genuinely signed proposal with the KEY of the k-th joiner replaced by the
+// attacker's (address, self-signature and the leader's packet signature untouched).
+func (h *hist) swapKey(p *pdkg.GossipPacket, k int) *pdkg.GossipPacket {
+	q := proto.Clone(p).(*pdkg.GossipPacket)
+	j := q.GetProposal().Joining[k]
+	if j.Address == h.attacker().part.Address {
+		j.Key = h.w.ids[0].part.Key // the attacker's own entry: somebody else's key
+	} else {
+		j.Key = h.attacker().part.Key
+	}
+	return q
+}
+
+// a relay replaces the key of the first / a middle / the last joiner of a genuinely signed proposal
+// (three or four joiners). The leader's signature covers each joiner's address and self-signature;
+// the key is tied to them because the self-signature must verify under it, for EVERY joiner. Delivered
+// to a fresh joiner (first epoch and reshare) and to an existing member; then the genuine packet.
+func (h *hist) directedJoinerKeySwap() {
+	var prop *pdkg.GossipPacket
+	var targets []int
+	if h.id%2 == 0 {
+		members := []int{0, 1, 2, 3}
+		_, prop = h.command(0, h.initialCmd(0, members, ""), "cmd-initial (four joiners)", "leader", false)
+		targets = []int{1, 3}
+	} else {
+		h.fabricate([]int{0, 1, 2}, 2, uint32(1+h.rng.Intn(3)))
+		s := reshareSpec{leader: 0, remaining: []int{0, 1, 2}, joining: []int{3, 4}, thr: 4}
+		c := h.reshareCmd(s, "")
+		// a third joiner: the key-only identity
+		c.GetResharing().Joining = append(c.GetResharing().Joining, proto.Clone(h.attacker().part).(*pdkg.Participant))
+		_, prop = h.command(0, c, "cmd-reshare (three joiners)", "leader", false)
+		targets = []int{1, 3, 4}
+	}
+	if prop == nil {
+		return
+	}
+	n := len(prop.GetProposal().GetJoining())
+	for _, i := range targets {
+		for _, k := range []int{0, n / 2, n - 1} {
+			pos := map[int]string{0: "first", n / 2: "middle", n - 1: "last"}[k]
+			h.packet(i, h.swapKey(prop, k), "proposal:mutated:t-joiner-key-"+pos, h.role(i, 0))
+		}
+		h.packet(i, prop, "proposal", h.role(i, 0))
 	}
 }
 
@@ -449,7 +497,7 @@ func Run(name, prop string) func(outDir string, seed int64, tier string) error {
 				specs = append(specs, spec{id: len(specs), kind: kind, seed: rng.Int63()})
 			}
 		}
-		for _, wk := range []string{"w-fresh-epoch", "w-left-panic", "w-key-subst", "w-nonleader-exec", "w-nil-leader", "w-unsigned-key", "w-member-epoch", "d-exec-setup", "d-shadow-joiner", "d-below-old-thr"} {
+		for _, wk := range []string{"w-fresh-epoch", "w-left-panic", "w-key-subst", "w-nonleader-exec", "w-nil-leader", "w-unsigned-key", "w-member-epoch", "d-exec-setup", "d-shadow-joiner", "d-below-old-thr", "d-joiner-key-swap", "d-joiner-key-swap"} {
 			add(wk, 1)
 		}
 		nGen, nFab, nKy, nSleep := 24, 44, 5, 4
